@@ -429,7 +429,7 @@ def check_to_dict(ctx, env, M, obj, key, state, combos, tag=''):
             exc = None
         except Exception as e:
             got, exc = None, e
-        w = lambda **k: dict(dict(variant=env.variant, pop=env.pop, check='to_dict', state=state, key=key, options=desc), **k)
+        w = lambda **k: dict(dict(quick=env.quick, variant=env.variant, pop=env.pop, check='to_dict', state=state, key=key, options=desc), **k)
         if (isinstance(only, list) and not only) or (isinstance(exclude, list) and not exclude):
             if isinstance(exc, TypeError): ctx.count('bracket.empty_list_option_typeerror'); continue
         if isinstance(exp_names, tuple):
@@ -769,7 +769,7 @@ def section_bag(ctx, env, M, rng, quick):
                 elif mode == 'to_dict': got = serialization.to_dict(objs if len(objs) > 1 or r % 2 else objs[0])
                 else: got = json.loads(serialization.to_json(objs))
             except Exception as e:
-                ctx.violation(dict(variant=env.variant, pop=env.pop, check='bag', desc=desc, exc=repr(e)), mechanism='bag-raised')
+                ctx.violation(dict(quick=env.quick, variant=env.variant, pop=env.pop, check='bag', desc=desc, exc=repr(e)), mechanism='bag-raised')
                 rollback(); continue
             if order is None:
                 # module-level functions build Bag(db); put(first); put(rest): the same insertions into a probe bag give the
@@ -788,7 +788,7 @@ def judge_bag(ctx, env, M2, put, cfgs, got, mode, desc, order, objs):
     if js: got_cmp = got
     else: got_cmp = {e: {k: d for k, d in ds.items()} for e, ds in got.items()}
     want = conv(bag_reference(env.S, M2, put, cfgs))
-    w = dict(variant=env.variant, pop=env.pop, check='bag', desc=desc)
+    w = dict(quick=env.quick, variant=env.variant, pop=env.pop, check='bag', desc=desc)
     # every object put in appears exactly once under its entity name and key
     for k in put:
         kk = enc_key(k[1]); kk = str(kk) if js else kk
@@ -856,7 +856,7 @@ def section_to_json(ctx, env, M, rng, quick):
         desc = {'roots': roots, 'include': include, 'exclude': exclude, 'shape': shape}
         ctx.case([env.vfp, 'to_json', shape, sorted(map(repr, roots)), sorted(include), sorted(exclude)], nontrivial=True, sample=desc)
         ctx.count('to_json.calls')
-        w = dict(variant=env.variant, pop=env.pop, check='to_json', desc=desc)
+        w = dict(quick=env.quick, variant=env.variant, pop=env.pop, check='to_json', desc=desc)
         with db_session:
             inc = [getattr(env.E[e], a) for e, a in include]
             exc = [getattr(env.E[e], a) for e, a in exclude]
@@ -978,7 +978,7 @@ def section_pickle(ctx, env, M, rng, quick):
     from pony.orm import db_session, select, desc as pdesc, commit, flush
     from pony.orm.core import OrmError
     keys_all = sorted(M.objs)
-    W = lambda **k: dict(dict(variant=env.variant, pop=env.pop, check='pickle'), **k)
+    W = lambda **k: dict(dict(quick=env.quick, variant=env.variant, pop=env.pop, check='pickle'), **k)
 
     def dumps(x, w):
         """pickle.dumps with the cycle finding classified.  Returns bytes or None."""
@@ -1141,13 +1141,14 @@ def run_variant(ctx, variant, pop, quick, sections=None):
     import random
     env = Env(ctx, variant, '%d-%d' % (ctx.shard, pop))
     env.pop = pop
+    env.quick = quick
     env.vfp = '%s/%s' % (variant['tag_pk'], variant['item_b'])
     rng = ctx.subrng('pop', pop, env.vfp)
     M = Model(env.S)
     try: populate(env, M, rng)
     except Exception:
         import traceback
-        ctx.violation({'variant': variant, 'pop': pop, 'section': 'populate', 'error': traceback.format_exc()[-1800:]},
+        ctx.violation({'quick': quick, 'variant': variant, 'pop': pop, 'section': 'populate', 'error': traceback.format_exc()[-1800:]},
                       mechanism='unexpected-exception-in-populate')
         clean_session(); env.db.disconnect()
         return
@@ -1163,7 +1164,7 @@ def run_variant(ctx, variant, pop, quick, sections=None):
         try: f()
         except Exception:
             import traceback
-            ctx.violation({'variant': variant, 'pop': pop, 'section': name, 'error': traceback.format_exc()[-1800:]},
+            ctx.violation({'quick': quick, 'variant': variant, 'pop': pop, 'section': name, 'error': traceback.format_exc()[-1800:]},
                           mechanism='unexpected-exception-in-' + name)
             clean_session()
     env.db.disconnect()
@@ -1204,4 +1205,6 @@ def run(ctx):
 
 
 def replay(ctx, witness):
-    run_variant(ctx, witness['variant'], witness['pop'], ctx.tier == 'quick')
+    if 'variant' not in witness:            # encoding enumeration: independent of the database contents
+        run_variant(ctx, VARIANTS[0], 0, True, sections=['encoding'])
+    else: run_variant(ctx, witness['variant'], witness['pop'], witness.get('quick', ctx.tier == 'quick'))
